@@ -72,6 +72,9 @@ def feVars : Nat → FE → List String
   | 0, _ => []
   | fuel + 1, e =>
     (if hasVar e.op then (match e.value with | .str s => [s] | _ => []) else []) ++
+    (if e.op = fVarTypeIdenticalTo then      -- `m[x].Type.IdenticalTo(m[y])`: y travels as a string argument
+      (match e.args[0]? with | some a => (match a.value with | .str s => [s] | _ => []) | none => [])
+     else []) ++
     (e.args.map (feVars fuel)).flatten
 
 /-- every alternative of every accepted group of a file, as the record the property talks about
